@@ -25,6 +25,7 @@ LITERAL = {
     "query": O.PCHAR + "/?",
     "querypart": O.UNRESERVED + "!$'()*," + ":@/?" + "+",     # '+' only as the encoding of a space
     "fragment": O.PCHAR + "/?",
+    "url": O.UNRESERVED + O.SUB_DELIMS + O.GEN_DELIMS,
 }
 # escapes a canonical text may keep although the character is legal literally (either-way delimiters)
 EITHER = {"userinfo": "", "path": "/+", "query": "=+&;", "querypart": "", "fragment": ""}
@@ -91,25 +92,22 @@ def h_idempotent(ctx, name, n):
     ctx.check("idempotent", sym_eq(r2[1], r[1]))
 
 
-def h_canonical_fixed(ctx, name, shape):
-    """C04 kernel: every text of the canonical language of the component is returned unchanged.
-    shape: string over 'L' (a literal) and 'E' (an escape %XY that is canonical for the component)"""
-    comp, requote, delims, qs = QUOTERS[name]
+def canonical_text(ctx, comp, shape, qs, prefix):
+    """a text of the canonical language of the component: shape is a string over 'L' (a literal of the component) and
+    'E' (an upper-case escape of a must-escape byte or of an either-way delimiter); membership is decided by the solver"""
     lit = LITERAL[comp]
-    if comp == "userinfo":
-        pass
     s = ""
     k = 0
     for sh in shape:
         if sh == "L":
-            c = ctx.str("l%d" % k, 1, lo=0, hi=127)
+            c = ctx.str("%sl%d" % (prefix, k), 1, lo=0, hi=127)
             ctx.assume(c in lit, "literal of the component")
             if qs:
                 ctx.assume(c != " ", "qs literal")
             s = s + c
         else:
-            x = ctx.str("x%d" % k, 1, lo=48, hi=70)
-            y = ctx.str("y%d" % k, 1, lo=48, hi=70)
+            x = ctx.str("%sx%d" % (prefix, k), 1, lo=48, hi=70)
+            y = ctx.str("%sy%d" % (prefix, k), 1, lo=48, hi=70)
             ctx.assume(all_of([x in O.HEXDIG_UPPER, y in O.HEXDIG_UPPER]), "upper-case hex")
             b = O.hexval(x) * 16 + O.hexval(y)
             # canonical escape: the byte must not be a literal of the component, or is an either-way delimiter
@@ -117,6 +115,13 @@ def h_canonical_fixed(ctx, name, shape):
             ctx.assume(isl == False, "escape of a must-escape byte or an either-way delimiter")  # noqa: E712
             s = s + "%" + x + y
         k += 1
+    return s
+
+
+def h_canonical_fixed(ctx, name, shape):
+    """C04 kernel: every text of the canonical language of the component is returned unchanged."""
+    comp, requote, delims, qs = QUOTERS[name]
+    s = canonical_text(ctx, comp, shape, qs, "")
     r = call(quoter(ctx, name), s)
     ctx.observe("out", r[:2])
     ctx.check("no-exception", r[0] == "ok", r[1])
